@@ -139,14 +139,18 @@ func (e *kvElection) checkKeyAndReelect(ctx context.Context) {
 	}
 
 	currentLeaderID := e.LeaderID()
-	if currentLeaderID != "" && currentLeaderID != newLeaderID {
-		log := e.getLogger()
-		log.Info("leader_changed_periodic_check",
-			append(e.logWithContext(ctx),
-				zap.String("old_leader_id", currentLeaderID),
-				zap.String("new_leader_id", newLeaderID),
-			)...,
-		)
+	if currentLeaderID != newLeaderID {
+		if currentLeaderID != "" {
+			log := e.getLogger()
+			log.Info("leader_changed_periodic_check",
+				append(e.logWithContext(ctx),
+					zap.String("old_leader_id", currentLeaderID),
+					zap.String("new_leader_id", newLeaderID),
+				)...,
+			)
+		}
+		// Also when no leader is known yet: a follower whose watch never
+		// delivered the current value learns the leader here.
 		e.observeLeader(newLeaderID, entry.Revision())
 	}
 }
